@@ -4,7 +4,7 @@ import random
 from wbgen import Gen
 
 
-def area_world(rng, spherical=None, cross=None, nfeat=None, temp_allow=("uniform", "linear", "adiabatic", "chapman"), plumes=0.25):
+def area_world(rng, spherical=None, cross=None, nfeat=None, temp_allow=("uniform", "linear", "adiabatic", "chapman"), plumes=0.25, random_models=False):
     g = Gen(rng)
     w, sph = g.base_world(spherical, cross)
     n = rng.choice([0, 1, 2, 2, 3, 4]) if nfeat is None else nfeat
@@ -27,7 +27,7 @@ def area_world(rng, spherical=None, cross=None, nfeat=None, temp_allow=("uniform
         if plumes and rng.random() < plumes:
             w["features"].append(g.plume("f%d" % i, sph, centre=c))
         else:
-            w["features"].append(g.area_feature("f%d" % i, sph, centre=c, temp_allow=temp_allow))
+            w["features"].append(g.area_feature("f%d" % i, sph, centre=c, temp_allow=temp_allow, random_models=random_models))
     return w, sph
 
 
